@@ -11,19 +11,25 @@ def story_xml(sid, items=(), paras=True, dur=True, tag='story', extra=''):
             body += '<p>para %s.%d</p>' % (sid, k)
         body += '<item><itemID>%s</itemID><itemSlug>slug %s</itemSlug><objID>o%s</objID></item>' % (it, it, it)
     md = ''
-    if dur:
+    if dur in ('tt', 'mt'):
+        md = ('<mosExternalMetadata><mosSchema>http://x/s</mosSchema><mosPayload><%s>%d</%s></mosPayload></mosExternalMetadata>' % (
+            'TextTime' if dur == 'tt' else 'MediaTime', 3 + len(items), 'TextTime' if dur == 'tt' else 'MediaTime'))
+    elif dur:
         md = ('<mosExternalMetadata><mosSchema>http://x/s</mosSchema><mosPayload><StoryDuration>%d</StoryDuration>'
               '</mosPayload></mosExternalMetadata>' % (10 + len(items)))
     return '<%s><storyID>%s</storyID><storySlug>slug %s</storySlug>%s%s%s</%s>' % (tag, sid, sid, body, md, extra, tag)
 
 
-def ro_xml(stories, meta_layout='before', items=None, mid=1, roid='RO1', dur=True, nodur=()):
+def ro_xml(stories, meta_layout='before', items=None, mid=1, roid='RO1', dur=True, nodur=(), paras=True, onetime=()):
     """stories: list of ids; items: dict id -> list of item ids; meta_layout: where non-story metadata sits"""
     items = items or {}
     head = '<roID>%s</roID><roSlug>the slug</roSlug><roEdStart>2020-01-01T10:00:00</roEdStart>' % roid
     parts = []
     for k, s in enumerate(stories):
-        parts.append(story_xml(s, items.get(s, ()), dur=dur and s not in nodur))
+        d_ = dur and s not in nodur
+        if s in onetime:
+            d_ = 'tt' if (k % 2 == 0) else 'mt'       # timing given by exactly one of TextTime / MediaTime
+        parts.append(story_xml(s, items.get(s, ()), dur=d_, paras=paras))
         if meta_layout in ('between', 'all') and k == 0:
             parts.append('<roTrigger>between</roTrigger>')
     tail = '<mosExternalMetadata><mosSchema>http://x/ro</mosSchema><mosPayload><a>1</a></mosPayload></mosExternalMetadata>' \
@@ -106,7 +112,7 @@ def msg(kind, mid=5, roid='RO1', **a):
     if kind == 'RunningOrderEnd':
         return ENV % (mid, '<roDelete>%s</roDelete>' % R), q % kind
     if kind == 'RunningOrderReplace':
-        return ENV % (mid, '<roReplace>%s<roSlug>replaced</roSlug>%s</roReplace>' % (R, ''.join(story_xml(s, ['r1']) for s in a['new']))), q % kind
+        return ENV % (mid, '<roReplace>%s<roSlug>replaced</roSlug>%s</roReplace>' % (R, ''.join(story_xml(s, (a.get('items') or {}).get(s, ['r1']) if 'items' in a else ['r1']) for s in a['new']))), q % kind
     if kind == 'MetaDataReplace':
         return ENV % (mid, '<roMetadataReplace>%s%s</roMetadataReplace>' % (R, a['body'])), q % kind
     raise ValueError(kind)
@@ -122,6 +128,23 @@ def refs(existing, allow_absent=False, blank=True):
 
 
 def merge_cases(tier, rng):
+    """single merges, then the same merges as the last step of a history on one RunningOrder object"""
+    for case in _single_merge_cases(tier, rng):
+        yield case
+        S = case['ro']['stories']
+        if len(S) == 3 and case['ro']['meta_layout'] == 'before' and case['level'] in ('story', 'item') \
+                and not case['ro'].get('nodur') and (tier == 'thorough' or rng.random() < 0.34):
+            # history: accessors are read, roReplace swaps the whole running-order element (same story and item IDs), then the merge
+            h = dict(case)
+            h['prefix'] = [('RunningOrderReplace', dict(new=list(S), items=case['ro'].get('items') or {}))]
+            yield h
+            if tier == 'thorough':
+                h = dict(case)
+                h['prefix'] = [('StoryAppend', dict(new=['P9'])), ('MetaDataReplace', dict(body='<roSlug>hist</roSlug>'))]
+                yield h
+
+
+def _single_merge_cases(tier, rng):
     """yield dict(kind, args, ro(spec), level) -- exhaustive over the small scope"""
     big = tier == 'thorough'
     story_sets = [list('ABCD'[:n]) for n in ((1, 3, 4) if not big else (1, 2, 3, 4, 5))]
@@ -167,26 +190,36 @@ def merge_cases(tier, rng):
             if len(S) > 1:
                 its[S[-1]] = I      # same item IDs in another story (C03: never touched)
             ro = dict(stories=S, meta_layout='before', items=its)
-            for st in ([S[0], 'ZZ', None] if len(S) == 3 else [S[0]]):
-                for t in refs(I):
+            variants = [(ro, st, ()) for st in ([S[0], 'ZZ', None] if len(S) == 3 else [S[0]])]
+            if len(S) == 3 and nitems == 3:
+                # adjacent items (no paragraphs between them); the last story addressed while an earlier one holds the same IDs;
+                # IDs ('8', '9') that exist only in stories other than the addressed one
+                variants.append((dict(ro, paras=False), S[0], ()))
+                its2 = {S[0]: I[1:2] + ['9'], S[1]: ['8'], S[-1]: I}      # '1' and '3' only in the addressed story, '2' also earlier
+                variants.append((dict(stories=S, meta_layout='before', items=its2), S[-1], ('8', '9')))
+                variants.append((dict(stories=S, meta_layout='before', items=its2, paras=False), S[-1], ('8',)))
+            for ro, st, elsewhere in variants:
+                def refs_i(I, _e=elsewhere):
+                    return refs(I) + list(_e)
+                for t in refs_i(I):
                     for new in (['n1'], ['n1', 'n2']):
                         yield dict(kind='ItemInsert', args=dict(story=st, target=t, new=new), ro=ro, level='item')
                         yield dict(kind='EAItemInsert', args=dict(story=st, target=t, new=new), ro=ro, level='item')
                         yield dict(kind='ItemReplace', args=dict(story=st, target=t, new=new), ro=ro, level='item')
                         yield dict(kind='EAItemReplace', args=dict(story=st, target=t, new=new), ro=ro, level='item')
                     for k in range(1, maxsrc + 1):
-                        for ids in itertools.permutations(refs(I), k):
+                        for ids in itertools.permutations(refs_i(I), k):
                             if nitems > 3 and k > 1 and not big and rng.random() < 0.6:
                                 continue
                             yield dict(kind='ItemMoveMultiple', args=dict(story=st, target=t, ids=list(ids)), ro=ro, level='item')
                             yield dict(kind='EAItemMove', args=dict(story=st, target=t, ids=list(ids)), ro=ro, level='item')
                 for k in range(1, maxsrc + 1):
-                    for ids in itertools.product(refs(I), repeat=k):
+                    for ids in itertools.product(refs_i(I), repeat=k):
                         if nitems > 3 and k > 1 and not big and rng.random() < 0.6:
                             continue
                         yield dict(kind='ItemDelete', args=dict(story=st, ids=list(ids)), ro=ro, level='item')
                         yield dict(kind='EAItemDelete', args=dict(story=st, ids=list(ids)), ro=ro, level='item')
-                for a, b in itertools.product(refs(I), repeat=2):
+                for a, b in itertools.product(refs_i(I), repeat=2):
                     yield dict(kind='EAItemSwap', args=dict(story=st, ids=[a, b]), ro=ro, level='item')
         # roElementAction without any element_target tag; running orders holding a story without timing metadata
         ro = dict(stories=S, meta_layout='before', items={S[0]: ['1', '2']})
@@ -198,8 +231,10 @@ def merge_cases(tier, rng):
             if kind in ('EAItemSwap', 'EAItemDelete'):
                 a2['story'] = None      # without element_target there is no story reference
             yield dict(kind=kind, args=a2, ro=ro, level='item' if 'Item' in kind else 'story')
-        for nd in ([S[0]], [S[len(S) // 2]], list(S)):
+        for nd in ([S[0]], [S[len(S) // 2]], list(S), 'onetime'):
             ro = dict(stories=S, meta_layout='before', items={S[0]: ['1']}, nodur=nd)
+            if nd == 'onetime':
+                ro = dict(stories=S, meta_layout='before', items={S[0]: ['1']}, onetime=list(S))
             yield dict(kind='StoryInsert', args=dict(target=S[-1], new=['N1']), ro=ro, level='story')
             yield dict(kind='EAStoryInsert', args=dict(target=None, new=['N1']), ro=ro, level='story')
             yield dict(kind='StorySend', args=dict(target=S[0]), ro=ro, level='story')
@@ -219,5 +254,6 @@ def merge_cases(tier, rng):
 
 
 def describe(case):
-    return '%s %s on stories=%s layout=%s items=%s' % (case['kind'], case['args'], case['ro']['stories'],
-                                                       case['ro']['meta_layout'], case['ro'].get('items'))
+    return '%s %s on stories=%s layout=%s items=%s%s' % (case['kind'], case['args'], case['ro']['stories'],
+                                                       case['ro']['meta_layout'], case['ro'].get('items'),
+                                                       ' after %s' % case['prefix'] if case.get('prefix') else '')
